@@ -191,7 +191,7 @@ import dawgie.pl.message
 MTYPE = W.enum(dawgie.pl.message.Type)
 FACREF = Rec('FacRef', {'module': ATOM, 'name': ATOM})
 MSG = Rec('MSG', {'context': Opt(ATOM), 'factory': Opt(FACREF), 'incarnation': Opt(ATOM), 'jobid': Opt(ATOM), 'ps_hint': Opt(INT),
-                  'revision': Opt(ATOM), 'runid': Opt(INT), 'success': Opt(BOOL), 'target': Opt(ATOM), 'timing': Opt(ATOM),
+                  'revision': Opt(ATOM), 'runid': Opt(INT), 'success': Opt(BOOL), 'target': Opt(ATOM), 'timing': Opt(Ref('Timing')),
                   'type': MTYPE, 'values': Opt(ATOM)})
 W.rec_classes = {'dawgie.pl.message.MSG': MSG}
 HAND = Ref('Hand')
@@ -397,3 +397,5 @@ W.dyn_getattr = _dyn_getattr
 
 W.declare_global('dawgie.pl.farm.ARCHIVE', BOOL)
 W.constants = set()
+
+W.methods[('Timing', '__setitem__')] = lambda ex, recv, args, kwargs, line: None      # the timing dict is carried, never read by the scheduler
